@@ -1,7 +1,7 @@
 (* C04 — implicit gradients of rootfinder / equilibrium / minimize are exact. *)
 From Coq Require Import List.
 From mathcomp Require Import all_ssreflect all_algebra.
-From XV Require Import Model.Separator Proofs.SeparatorProofs Proofs.RootBackward.
+From XV Require Import Model.Separator Proofs.SeparatorProofs Proofs.RootBackward Proofs.ConjAdjoint.
 Import GRing.Theory.
 Local Open Scope ring_scope.
 
@@ -30,3 +30,12 @@ Theorem C04_separator_rejects_length : forall A n tidx nidx (ts ns : list A),
   (length ts + length ns)%coq_nat <> n -> reconstruct A n tidx nidx ts ns = None.
 Proof. exact separator_rejects_length. Qed.
 Print Assumptions C04_separator_rejects_length.
+
+(* T5: the conjugate (complex unknowns) case: solve J^H g = -G, return P^H g; for every tangent of f(y(theta), theta) = 0
+   the sesquilinear pairings agree *)
+Theorem C04_ift_backward_adjoint_conj : forall (F : fieldType) (cj : {rmorphism F -> F}), involutive cj ->
+  forall n p (J : 'M[F]_n) (P : 'M[F]_(n, p)) (dy : 'cV[F]_n) (dth : 'cV[F]_p) (G g : 'cV[F]_n),
+  J *m dy + P *m dth = 0 -> map_mx cj J^T *m g = - G ->
+  \tr (map_mx cj G^T *m dy) = \tr (map_mx cj (map_mx cj P^T *m g)^T *m dth).
+Proof. move=> F cj cjK n p J P dy dth G g; exact: ift_backward_adjoint_conj. Qed.
+Print Assumptions C04_ift_backward_adjoint_conj.
